@@ -319,7 +319,7 @@ func (p *Prog) CheckProperty(prop, tier string, seed int) *CheckResult {
 	// with all back ends and a longer timeout before it counts as failed
 	var retry []*Obl
 	for _, o := range obls {
-		if o.Expect != "sat" && (o.Status == "unknown" || o.Status == "cover-unknown") {
+		if o.Expect != "sat" && o.Kind != "deadprobe" && (o.Status == "unknown" || o.Status == "cover-unknown") {
 			o.Status = ""
 			retry = append(retry, o)
 		}
@@ -368,6 +368,45 @@ func (p *Prog) CheckProperty(prop, tier string, seed int) *CheckResult {
 			if o.Status == "covered" {
 				coverOK[o.Name] = true
 			}
+		}
+	}
+	// dead-path probes: returns that are reachable only if quantified
+	// assumptions are ignored do not count as reachable
+	deadPath := map[string]bool{} // cover name + path
+	obls0 := obls
+	aliveUnit := map[string]bool{}
+	probedUnit := map[string]bool{}
+	{
+		var keep []*Obl
+		for _, o := range obls {
+			if o.Kind != "deadprobe" {
+				keep = append(keep, o)
+				continue
+			}
+			probedUnit[o.Unit] = true
+			if o.Status == "dead" {
+				deadPath[o.Name+"@"+o.Path] = true
+				res.DeadReturns = append(res.DeadReturns, o.Name+" path="+o.Path)
+			} else {
+				aliveUnit[o.Unit] = true
+			}
+		}
+		obls = keep
+	}
+	probedPath := map[string]bool{}
+	for _, o := range obls0 {
+		if o.Kind == "deadprobe" {
+			probedPath[o.Unit+"@"+o.Path] = true
+		}
+	}
+	for _, o := range obls0 {
+		if o.Kind == "cover" && o.Status == "covered" && strings.Contains(o.Name, "/cover:return") && !probedPath[o.Unit+"@"+o.Path] {
+			aliveUnit[o.Unit] = true // quantifier-free path: the cover is exact
+		}
+	}
+	for u := range probedUnit {
+		if !aliveUnit[u] {
+			res.Broken = "vacuous: every return of " + u + " is dead under its assumptions"
 		}
 	}
 	unitReturnCovered := map[string]bool{}
